@@ -159,13 +159,24 @@ func VerifC18aBucket() {
 
 func VerifC18cVerifyRawCerts() {
 	digest := vUint8()
-	verifSum256 = func(b []byte) [32]byte { var h [32]byte; h[0] = digest; return h }
+	hashedCert, parsedCert := -1, -2 // which certificate of the chain (by its first byte) was hashed / examined
+	verifSum256 = func(b []byte) [32]byte {
+		var h [32]byte
+		h[0] = digest
+		if len(b) > 0 {
+			hashedCert = int(b[0])
+		}
+		return h
+	}
 	algs := []x509.SignatureAlgorithm{x509.ECDSAWithSHA256, x509.SHA256WithRSA, x509.PureEd25519, x509.SHA1WithRSA, x509.SHA512WithRSA, x509.MD5WithRSA}
 	alg := algs[vCase(len(algs))]
 	nb := vRange64(0, 1<<60)
 	na := vRange64(0, 1<<61)
 	parseFail := vBool()
 	verifParseCertificate = func(der []byte) (*x509.Certificate, error) {
+		if len(der) > 0 {
+			parsedCert = int(der[0])
+		}
 		if parseFail {
 			return nil, errors.New("bad cert")
 		}
@@ -197,6 +208,10 @@ func VerifC18cVerifyRawCerts() {
 		vAssert(nRaw >= 1, "no certificate, no acceptance")
 		vAssert(match, "accepted only if the leaf's SHA-256 is one of the SHA2-256 hashes of the dialed address")
 		vAssert(!parseFail, "an unparsable certificate is not accepted")
+		vAssert(hashedCert == parsedCert, "the certificate whose hash is pinned is the very certificate the validity rules are applied to (a chain of two cannot pass with one certificate pinned and the other one valid)")
+		if nRaw == 2 {
+			vCover("chain-of-two")
+		}
 		rsa := alg == x509.SHA256WithRSA || alg == x509.SHA1WithRSA || alg == x509.SHA512WithRSA || alg == x509.MD5WithRSA
 		vAssert(!rsa, "RSA certificates are not accepted")
 		vAssert(na-nb <= int64(14*24*time.Hour), "certificates valid for more than 14 days are not accepted")
